@@ -1,7 +1,7 @@
 (** Dispatcher of the executable model: one input line -> one observation
     line, for the generated tables and for the specified tables. *)
 From Coq Require Import String.
-From PSA Require Import Base Lines Lifecycle Regex Claims Obs CaseClaims RunC14 RunHist Tags Wire Codec RunCodec Evidence RunEv Cose RunCose Embedded RunEmb Registry RunReg.
+From PSA Require Import Base Lines Lifecycle Regex Claims Obs CaseClaims RunC14 RunHist Tags Wire Codec RunCodec Evidence RunEv Cose RunCose Embedded RunEmb Registry RunReg Json JsonCodec RunJson.
 From PSA.Spec Require Import SpecTables SpecTags.
 From PSA.Gen Require Import GenConsts GenTags.
 Open Scope N_scope.
@@ -27,9 +27,11 @@ Definition run_line (cfg : ccfg) (w : wcfg) (line : bytes) : bytes :=
       else if bytes_eqb p (s2b "SER") then run_ser args
       else if bytes_eqb p (s2b "POP") then run_pop args
       else if bytes_eqb p (s2b "SERJ") then run_serj args
+      else if bytes_eqb p (s2b "RTJ") then run_rtj cfg w args
       else if bytes_eqb p (s2b "REG") then run_reg cfg args
       else if bytes_eqb p (s2b "ALL") then s2b "*"      (* every entry point on arbitrary bytes: judged by the no-panic / allocation oracles *)
       else if bytes_eqb p (s2b "SERJ") then run_serj args
+      else if bytes_eqb p (s2b "RTJ") then run_rtj cfg w args
       else if bytes_eqb p (s2b "REG") then run_reg cfg args
       else if bytes_eqb p (s2b "ALL") then s2b "*"      (* every entry point on arbitrary bytes: judged by the no-panic / allocation oracles *)
       else if bytes_eqb p (s2b "TAMP") then run_tamp cfg w args
